@@ -49,6 +49,7 @@ RULE = ("per seeded base scenario: exhaustive enumeration of termination kind x 
 COMPONENTS = dict(common.REAL_COMPONENTS)
 ASSUMPTIONS = ["fault points are enumerated completely per base scenario; base scenarios (config, outcome script, entry point) are sampled",
                "one call outstanding at a time (concurrent probes are C07's domain)"]
+STATES_MEASURE = "distinct (entry point, breaker pre-state, termination kind, placement class) cells in which an admitted call was terminated"
 BUDGETS = {"quick": (2400, 90), "thorough": (130000, 285)}
 SHRINK_CAP = 150
 OP_KINDS = [("abort", None), ("base", "KeyboardInterrupt"), ("base", "SystemExit"), ("base", "GeneratorExit"),
